@@ -136,8 +136,10 @@ Definition window_check (minid maxid : Z) (ids2 : list Z) : bool :=
 (* ---------------------------------------------------------------------------------------- *)
 (* known finding C13.kf_cos_resolution                                                        *)
 (* ---------------------------------------------------------------------------------------- *)
-(* The HTM code represents a circle by the double nearest to the cosine of its radius (and the
-   unrepaired gcirc a separation by its cosine).  A position / pair is *unresolved* with respect
-   to a circle or bin edge when the cosines of its separation and of the edge angle differ by at
-   most 2e-15 (about 18 half-ulps of a cosine near 1).  [dcos] = cos(sep) - cos(edge angle). *)
+(* The HTM code represents a circle by the double nearest to the cosine of its radius (htmc.cc:
+   d = cos(radius*D2R), SpatialDomain::setRaDecD).  A position is *unresolved* with respect to a
+   circle when the cosines of its separation from the centre and of the radius differ by at most
+   2e-15 (about 18 half-ulps of a cosine near 1): such a position may be treated as lying on either
+   side by intersect, and a pair at such a separation from the outer edge rmax may be missing from
+   the cover used by bincount.  [dcos] = cos(sep) - cos(circle radius). *)
 Definition kf_cos_resolution (dcos : Q) : bool := Qle_bool (Qabs dcos) (2 # 1000000000000000).
